@@ -75,7 +75,13 @@ var (
 // Mint returns a self-signed certificate for k valid in [nb, na] (inclusive
 // seconds, as X.509 has it). Results are cached.
 func Mint(k *Key, nb, na time.Time, serial int64) *Cert {
-	id := fmt.Sprintf("%s/%d/%d/%d", k.Name, nb.Unix(), na.Unix(), serial)
+	return MintNamed(k, "verif-"+k.Name, nb, na, serial)
+}
+
+// MintNamed is Mint with a chosen subject common name (certificates of different
+// keys may thus share subject and serial number).
+func MintNamed(k *Key, cn string, nb, na time.Time, serial int64) *Cert {
+	id := fmt.Sprintf("%s/%s/%d/%d/%d", k.Name, cn, nb.Unix(), na.Unix(), serial)
 	certMu.Lock()
 	if c, ok := certCache[id]; ok {
 		certMu.Unlock()
@@ -84,7 +90,7 @@ func Mint(k *Key, nb, na time.Time, serial int64) *Cert {
 	certMu.Unlock()
 	tmpl := &x509.Certificate{
 		SerialNumber: big.NewInt(serial),
-		Subject:      pkix.Name{CommonName: "verif-" + k.Name},
+		Subject:      pkix.Name{CommonName: cn},
 		NotBefore:    nb, NotAfter: na,
 		KeyUsage:              x509.KeyUsageDigitalSignature | x509.KeyUsageKeyEncipherment,
 		BasicConstraintsValid: true,
